@@ -537,6 +537,22 @@ def selftest():
     assert [t.text for t in tokens('a-1 1abc 1.5e3x')] == ['a', '-1', '1', 'abc', '1.5e3', 'x']
     assert len(RESERVED) == 62 and not (RESERVED & UNRESERVED)
     assert is_reserved('Select') and not is_reserved('key') and not is_reserved('true')
+    # Lexer.g STRING_LITERAL / QUOTED_NAME: the only escape is the doubled quote character; backslash, '$', '%',
+    # ';', comment markers, NUL and tab are ordinary characters inside the quotes
+    for text, want in (("'a\\b'", 'a\\b'), ("'\\'", '\\'), ("'\\\\'", '\\\\'), ("'\\'''", "\\'"), ("'\\n'", '\\n'),
+                       ("'$$'", '$$'), ("'%s'", '%s'), ("';'", ';'), ("'--'", '--'), ("'//'", '//'), ("'/**/'", '/**/'),
+                       ("'\x00'", '\x00'), ("'\t'", '\t'), ("'\"'", '"'), ("$$\\'$$", "\\'")):
+        toks = tokens(text)
+        assert len(toks) == 1 and toks[0].kind == 'string' and toks[0].value == want, (text, toks)
+    for text, want in (('"a\\b"', 'a\\b'), ('"\\"', '\\'), ('"\\"""', '\\"'), ('"--"', '--'), ('"$"', '$'), ('"\'"', "'"),
+                       ('"\t"', '\t'), ('"/*"', '/*')):
+        assert read_identifier(text) == want, (text, read_identifier(text))
+    for text in ("'\\''", "'a\\'b'", '"\\""'):          # a backslash does not protect the quote after it
+        try:
+            v = tokens(text)
+        except CqlError:
+            continue
+        assert len(v) != 1, (text, v)
     return True
 
 
